@@ -9,4 +9,6 @@ var readyIDs = map[string]bool{
 	"C31": true, "C50": true, "C54": true, "C57": true, "C52": true, "C56": true,
 	"C05": true, "C16": true, "C17": true, "C39": true, "C40": true,
 	"C33": true, "C34": true, "C35": true,
+	"C18": true, "C19": true, "C20": true, "C21": true, "C25": true, "C27": true, "C58": true,
+	"C42": true, "C43": true, "C44": true, "C36": true, "C37": true, "C41": true,
 }
